@@ -194,6 +194,7 @@ type Exec struct {
 	prog     *Program
 	unit     *Unit
 	factSrc  map[*Term]string // provenance of labelled assumptions (for "by" hints)
+	curState *State           // state of the instruction being executed (for conversions that add facts)
 	obls     []*Obligation
 	fresh    int
 	objs     int
@@ -416,6 +417,8 @@ func (x *Exec) writePath(cur Val, path []pathElem, v Val) Val {
 				default:
 					nt = Sym("ref:opaque", SRef)
 				}
+			} else if bv, isBV := nv.(*BufVal); isBV && want == SBytes && x.curState != nil {
+				nt = x.bufBytes(x.curState, bv)
 			} else if gs, isGS := nv.(*GoSlice); isGS && want != nil && isSliceSort(want) {
 				// a Go slice value with term elements stored into a struct term: build the slice term
 				es := want.Fields[1].Sort.Elem
@@ -747,6 +750,7 @@ func (x *Exec) execFrom(f *Frame, st *State, b *ssa.BasicBlock, prev *ssa.BasicB
 		case *ssa.Panic:
 			return []*Outcome{{st: st, panic: true, desc: "panic at " + x.pos(in.Pos())}}
 		case *ssa.Call:
+			x.curState = st
 			conts := x.doCall(f, st, in, &in.Call)
 			if conts == nil {
 				return nil
@@ -829,6 +833,7 @@ func shortFile(f string) string {
 
 // step executes a non-control instruction. Returns false to abort the path.
 func (x *Exec) step(f *Frame, st *State, ins ssa.Instruction) bool {
+	x.curState = st
 	switch in := ins.(type) {
 	case *ssa.Alloc:
 		elem := in.Type().(*types.Pointer).Elem()
@@ -1121,11 +1126,24 @@ func (x *Exec) step(f *Frame, st *State, ins ssa.Instruction) bool {
 			f.names[id.Name] = in.X
 		}
 	case *ssa.Range:
-		x.errorf("%s: range over map/string not supported at %s", f.fn.Name(), x.pos(in.Pos()))
-		return false
+		// over-approximation: the iteration yields arbitrarily many arbitrary (key, value) pairs
+		x.assumed["range over a Go map / string at "+x.pos(in.Pos())+": elements unconstrained"] = true
+		f.regs[in] = &OpaqueVal{Name: "maprange"}
 	case *ssa.Next:
-		x.errorf("%s: Next not supported", f.fn.Name())
-		return false
+		tup, ok := in.Type().(*types.Tuple)
+		if !ok || tup.Len() != 3 {
+			x.errorf("%s: Next with unexpected type", f.fn.Name())
+			return false
+		}
+		okv := x.freshTerm("next_ok", SBool)
+		var kv, vv Val
+		if b, isB := tup.At(1).Type().Underlying().(*types.Basic); !isB || b.Kind() != types.Invalid {
+			kv = x.freshVal(st, tup.At(1).Type(), "next_key")
+		}
+		if b, isB := tup.At(2).Type().Underlying().(*types.Basic); !isB || b.Kind() != types.Invalid {
+			vv = x.freshVal(st, tup.At(2).Type(), "next_val")
+		}
+		f.regs[in] = &TupleVal{[]Val{okv, kv, vv}}
 	case *ssa.Go, *ssa.Select, *ssa.Send, *ssa.MakeChan:
 		x.errorf("%s: concurrency construct outside subset", f.fn.Name())
 		return false
